@@ -809,6 +809,113 @@ func corpusSML() {
 	}
 }
 
+// corpusErroredVsEmpty: for every constructor-argument error class x every item type, the errored
+// item against a valid EMPTY item of the same type and width — the pair whose Type() and Size()
+// agree and whose discarded accessor values (nil vs empty) agree — in both orders, alone and as the
+// differing child of otherwise identical nested lists.
+func corpusErroredVsEmpty() {
+	big53 := int64(1)<<53 + 1
+	common := []any{"notanumber", otherT{1}, nil, []any{1}, struct{}{}, myInt(1)}
+	intBad := append([]any{float64(1), float32(1), true, []bool{true}, []float64{1}, "", "1.5", []string{"1", "x"}}, common...)
+	uintBad := append([]any{-1, int8(-1), int16(-1), int32(-1), int64(-1), []int{1, -1}, []int8{-1}, []int64{-5}, "-1", "+1", []string{"-1"}, float64(1), true}, common...)
+	floatBad := append([]any{big53, -big53, int(big53), uint64(big53), uint(big53), []int64{big53}, []uint64{uint64(big53)}, []int{1 << 60}, "abc", "1e400", "", []string{"1", "x"}, true, []bool{false}}, common...)
+	binBad := append([]any{256, -1, 1 << 40, "256", "-1", "x", "", int8(1), int64(1), uint16(1), []int{1}, []string{"1"}, 1.5, true}, common...)
+	boolBad := append([]any{1, "true", []int{1}, byte(1), 1.5, []string{"true"}}, common...)
+
+	type fam struct {
+		kind byte
+		ws   []int
+		bad  []any
+	}
+	fams := []fam{
+		{'I', []int{1, 2, 4, 8}, intBad}, {'U', []int{1, 2, 4, 8}, uintBad}, {'F', []int{4, 8}, floatBad},
+		{'B', []int{0}, binBad}, {'O', []int{0}, boolBad},
+	}
+	pair := func(e, v *expr) {
+		re, rv := e.build(), v.build()
+		if re.panicked || rv.panicked {
+			c.Fail("constructor panicked", "Q "+e.syntax()+" ; "+v.syntax())
+			return
+		}
+		if !errorClass(re.item) {
+			c.Fail("an argument of a refused class was accepted", "C "+e.syntax())
+			return
+		}
+		if errorClass(rv.item) {
+			c.Fail("an empty item carries an error", "C "+v.syntax())
+			return
+		}
+		emitEqual(e, v, re.item, rv.item)
+		emitEqual(v, e, rv.item, re.item)
+		// as the differing child of otherwise identical lists, at depth 1 and 2
+		sib1, sib2 := &expr{kind: 'A', str: "x"}, numExpr('U', 1, 7)
+		le := &expr{kind: 'L', kids: []*expr{sib1, e, sib2}}
+		lv := &expr{kind: 'L', kids: []*expr{sib1, v, sib2}}
+		ble, blv := le.build(), lv.build()
+		emitEqual(le, lv, ble.item, blv.item)
+		emitEqual(lv, le, blv.item, ble.item)
+		de := &expr{kind: 'L', kids: []*expr{{kind: 'L', kids: []*expr{e}}, sib2}}
+		dv := &expr{kind: 'L', kids: []*expr{{kind: 'L', kids: []*expr{v}}, sib2}}
+		bde, bdv := de.build(), dv.build()
+		emitEqual(de, dv, bde.item, bdv.item)
+		emitEqual(dv, de, bdv.item, bde.item)
+		c.Count(fmt.Sprintf("errored-vs-empty/%c", e.kind))
+	}
+	for _, f := range fams {
+		for _, w := range f.ws {
+			var empties []*expr
+			empties = append(empties, numExpr(f.kind, w))
+			switch f.kind {
+			case 'I':
+				empties = append(empties, numExpr(f.kind, w, []int{}), numExpr(f.kind, w, []string{}))
+			case 'U':
+				empties = append(empties, numExpr(f.kind, w, []uint8{}))
+			case 'F':
+				empties = append(empties, numExpr(f.kind, w, []float64{}))
+			case 'B':
+				empties = append(empties, numExpr(f.kind, w, []byte{}))
+			case 'O':
+				empties = append(empties, numExpr(f.kind, w, []bool{}))
+			}
+			for _, bad := range f.bad {
+				for _, e := range []*expr{numExpr(f.kind, w, bad), numExpr(f.kind, w, 1 == 1 && f.kind == 'O', bad)} {
+					if f.kind != 'O' && len(e.args) == 2 {
+						e.args[0] = bad // (bad, bad): still errored, still no values
+					}
+					for _, v := range empties {
+						pair(e, v)
+					}
+				}
+			}
+		}
+	}
+	// over-long strings and the over-long list: errored with an empty value (oracle only — the
+	// arguments are too long for a case line)
+	long := strings.Repeat("a", secs2.MaxByteSize+1)
+	type ev struct {
+		name string
+		e, v secs2.Item
+	}
+	for _, p := range []ev{
+		{"A", secs2.A(long), secs2.A("")},
+		{"J", secs2.J(long), secs2.J("")},
+		{"W", secs2.NewLocalizedStrItem(0, long), secs2.NewLocalizedStrItem(0, "")},
+		{"W2", secs2.W(long), secs2.W("")},
+		{"L", secs2.NewListItem(make([]secs2.Item, secs2.MaxByteSize+1)...), secs2.L()},
+	} {
+		if p.e.Error() == nil {
+			c.Fail("over-long argument accepted", "Z long "+p.name)
+			continue
+		}
+		for _, q := range [][2]secs2.Item{{p.e, p.v}, {p.v, p.e}, {secs2.L(p.e), secs2.L(p.v)}, {secs2.L(p.v), secs2.L(p.e)}} {
+			if secs2.Equal(q[0], q[1]) {
+				c.Fail("an item with a non-nil Error() compared Equal", "Z long "+p.name+" vs empty")
+			}
+		}
+		c.Count("errored-vs-empty/long")
+	}
+}
+
 func corpusOthers() {
 	for _, kind := range []byte{'I', 'U', 'F', 'B', 'O'} {
 		for _, a := range otherArgs {
@@ -1183,6 +1290,7 @@ func main() {
 	corpusFloats()
 	corpusOthers()
 	corpusNarrow()
+	corpusErroredVsEmpty()
 	corpusSizeLimit()
 	corpusSML()
 	if *big31 {
